@@ -230,6 +230,16 @@ def step_d(tier, rep):
         rep.add_model(res, cfg + " (random walks)")
         if not res["ok"]:
             raise core.ToolError(f"MC_Tracker random walks violated {res['violated']}")
+        # unbounded counterpart (TLAPS): the structural rules for any number of aircraft and any geometry
+        import subprocess
+        r = subprocess.run(["timeout", "1200", "tlapm", "--threads", "4", "--cleanfp", "Tracker_proofs.tla"], cwd=core.SPEC,
+                           stdout=subprocess.PIPE, stderr=subprocess.STDOUT, text=True)
+        subprocess.run(["rm", "-rf", os.path.join(core.SPEC, ".tlacache")])
+        m = re.search(r"All (\d+) obligations proved", r.stdout)
+        if not m:
+            raise core.ToolError("tlapm did not prove Tracker_proofs.tla: " + r.stdout[-600:])
+        rep.extra["tlaps"] = {"module": "Tracker_proofs", "theorems": "OtherFormats, GrowsByTheAddress, Isolated, PruneExactly, AddedIffNewAddress (any table, any frame, any geometry)",
+                              "obligations": int(m.group(1)), "proved": int(m.group(1))}
 
 
 def model_histories(tier, rep):
